@@ -127,7 +127,7 @@ POOL = {
     "u": [0, 1, 2, 3, 4, 5, 1 << 32, I63, I64 - 1, I64 - 2, I64 - 3],
     "i": [0, 1, -1, 2, 3, 5, 6, 7, 63, 64, 65, (1 << 31) - 1, -(1 << 31), 100, 17, 19],
     "t": [0, 1, 0x21, 0x28, 0x88, 0x110, 0x48, 0xfa0, 0x208, 7],
-    "f": [0, 1, -1, 2, 3, 4, -2, (1 << 31) - 1],
+    "f": [0, 1, -1, 2, 3, 4, 5, -2, (1 << 31) - 1],
     "d": ["0", "1.5", "-1", "1e300", "nan", "inf"],
     "x": [0, 1, 2, 4, 8, 15, 0xFFFFFFFF, 0x1000000, 0x2000000],
 }
@@ -168,8 +168,8 @@ KIND_FIELD = {"alter_linterp": ["linterp", "P_plint"], "alter_phase": ["phase", 
               "alter_lincom": ["lincom", "P_plc"], "alter_polynom": ["poly", "P_ppoly"], "alter_recip": ["recip"], "alter_mplex": ["mplex"],
               "alter_window": ["win"], "alter_multiply": ["mult", "P_pmult"], "alter_divide": ["div"], "alter_indir": ["indir"],
               "alter_sindir": ["sindir"], "alter_const": ["const", "P_pconst"], "alter_carray": ["carray"], "alter_sarray": ["sarray"],
-              "alter_raw": ["rc", "P_praw"], "alter_entry": ["phase", "P_plint"], "rename": ["phase", "P_pph", "raw/meta"],
-              "move": ["phase", "P_pph", "sconst", "kc"], "seek64": ["nofile", "raw", "xph"], "putdata64": ["nofile"], "getdata64": ["nofile"], "delete": ["const", "P_pconst", "raw", "kc", "kca", "kc/mv", "raw/meta", "carray"]}
+              "alter_raw": ["rc", "P_praw"], "alter_entry": ["phase", "P_plint"], "rename": ["phase", "P_pph", "raw/meta", "rc"],
+              "move": ["phase", "P_pph", "sconst", "kc", "rc", "sraw"], "seek64": ["nofile", "raw", "xph"], "putdata64": ["nofile"], "getdata64": ["nofile"], "delete": ["const", "P_pconst", "raw", "kc", "kca", "kc/mv", "raw/meta", "carray"]}
 
 
 def arg_pool(op, sig, k):
@@ -552,11 +552,11 @@ def main():
     # fragment index
     for op, sig in ops:
         if sig == "f":
-            for i in (0, 1, 2, 3, 4, -1, -2, (1 << 31) - 1, -(1 << 31)):
-                acc = M.q(("fraga %d 4" if op == "rewrite_fragment" else "frag %d 4") % i) == "1"
+            for i in (0, 1, 2, 3, 4, 5, -1, -2, (1 << 31) - 1, -(1 << 31)):
+                acc = M.q(("fraga %d 5" if op == "rewrite_fragment" else "frag %d 5") % i) == "1"
                 if op == "parent_fragment" and i == 0:
                     acc = False        # the root fragment has no parent: GD_E_BAD_INDEX is documented
-                addA(op, (i,), {"pred": None, "accept": acc, "truth": 0 <= i < 4, "tag": "frag"})
+                addA(op, (i,), {"pred": None, "accept": acc, "truth": 0 <= i < 5, "tag": "frag"})
                 nontrivial.add((op, i))
     ph("builds done; running A (%d cases)" % len(A))
     t_a = _t.time()
@@ -642,7 +642,7 @@ def main():
     for k in range(nseq):
         mode = rng.choice(["RDWR", "RDWR", "RDWR", "RDONLY"])
         p0, p1 = rng.choice(["none", "none", "format", "all"]), rng.choice(["none", "format"])
-        M.q("reset %d %d %d 0 1" % (mode == "RDWR", {"none": 0, "format": 1, "data": 2, "all": 3}[p0], {"none": 0, "format": 1}[p1]))
+        M.q("reset %d %d %d 0 0 1" % (mode == "RDWR", {"none": 0, "format": 1, "data": 2, "all": 3}[p0], {"none": 0, "format": 1}[p1]))
         for (nm, kd, fr, vals, refs) in ents:
             M.q("ent %s %d %d %s | %s" % (nm, kd, fr, " ".join(map(str, vals)), " ".join(refs)))
         cmds, preds = [], []
@@ -667,7 +667,7 @@ def main():
                 q = "call getdata %s %d %d %d %d 1" % (nm, ff, fs, nf, ns); cmd = "op getdata64 %s %d %d %d %d 1" % (nm, ff, fs, nf, ns)
             elif w < 0.75:
                 nm = rng.choice(["n1", "n2", "n3", "raw", "const"])
-                fr = rng.choice([0, 0, 1, 4, -1])      # (fragments 2 and 3 carry a prefix: names are not modelled)
+                fr = rng.choice([0, 0, 1, 5, -1])      # (fragments 2 and 3 carry a prefix: names are not modelled)
                 q = "call add %s %d 1" % (nm, fr); cmd = "op add_const %s 0x28 0x28 %d" % (nm, fr)
             elif w < 0.90:
                 nm = rng.choice(["n1", "n2", "const", "sconst", "carray", "nosuch", "scarray"])
@@ -676,7 +676,7 @@ def main():
                 nm, nn = rng.choice(["n1", "const", "sconst", "nosuch", "n2"]), rng.choice(["n1", "n2", "n3", "const", "raw"])
                 q = "call rename %s %s" % (nm, nn); cmd = "op rename %s %s 0" % (nm, nn)
             elif w < 0.97:
-                nm, fr = rng.choice(["n1", "const", "sconst", "scarray", "nosuch", "carray"]), rng.choice([0, 1, 1, 4, -1])
+                nm, fr = rng.choice(["n1", "const", "sconst", "scarray", "nosuch", "carray"]), rng.choice([0, 1, 1, 5, -1])
                 q = "call move %s %d" % (nm, fr); cmd = "op move %s %d 0" % (nm, fr)
             else:
                 nm, ln = rng.choice(["carray", "scarray", "const", "nosuch", "raw"]), rng.choice([0, 1, 2, 4, 6, 1 << 61, I63, I64 - 1])
@@ -722,6 +722,33 @@ def main():
             rest = [c for c in l if not c["prio"]]
             quota = max(6, (1200 * len(l)) // tot)
             sweep += pr + rest[:1] + rng.sample(rest[1:], min(max(0, len(rest) - 1), quota))
+    # ---- variants of the swept tuples (same oracle): under /PROTECT, with a damaged data file, after a huge frame offset
+    PROT_OPS = ("seek64", "putdata64", "put_constant", "put_carray", "put_carray_slice", "put_string", "put_sarray", "put_sarray_slice",
+                "alter_raw", "alter_frameoffset64", "alter_encoding", "alter_endianness", "move", "rename", "delete", "add_raw", "add_spec",
+                "add_const", "add_bit", "madd_const", "include", "uninclude", "alter_linterp", "alter_phase", "alter_entry", "alter_spec",
+                "hide", "reference", "alter_affixes", "rewrite_fragment", "alter_carray", "getdata64")
+    DATAFILE = {"raw": "raw", "r16": "r16", "rc": "rc", "sraw": "sub/sraw", "ac": "ac"}
+    base_cases = [c for c in sweep if c["prio"] or len(c["args"]) <= 2]
+    variants = []
+    pv = [c for c in base_cases if c["op"] in PROT_OPS]
+    for (p0, p1) in (("data", "data"), ("all", "format")):
+        for c in (pv if chk.thorough else rng.sample(pv, min(len(pv), 450))):
+            variants.append(dict(c, p0=p0, p1=p1, tag="[fragment 0 /PROTECT %s, fragment 1 /PROTECT %s] " % (p0, p1),
+                                 cmds=[x for x in c["cmds"] if x.startswith(("rep ", "rmfile "))]))
+    fv = [c for c in base_cases if c["op"] in ("move", "rename", "delete", "alter_raw", "alter_entry", "putdata64", "getdata64", "seek64", "alter_spec")
+          and c["args"] and str(c["args"][0]) in DATAFILE and str(c["args"][0]) != "ac"]
+    for c in (fv if chk.thorough else rng.sample(fv, min(len(fv), 350))):
+        f = DATAFILE[str(c["args"][0])]
+        rep = [x for x in c["cmds"] if x.startswith("rep ")]
+        fol = ["op move ac 1 1"] if c["op"] == "move" else ["op rename ac fnewac 1"] if c["op"] == "rename" else []
+        variants.append(dict(c, tag="[data file %s missing] " % f, cmds=["rmfile " + f] + rep + fol, follow=(fol[0][3:] if fol else None)))
+        variants.append(dict(c, tag="[a directory in place of the data file %s] " % f, cmds=["rmfile " + f, "mkdir " + f] + rep + fol, follow=(fol[0][3:] if fol else None)))
+        if c["op"] in ("move", "rename", "alter_raw", "delete"):
+            variants.append(dict(c, tag="[after gd_alter_frameoffset(2^61) of the field's fragment] ",
+                                 cmds=["op alter_frameoffset64 2305843009213693952 %d 0" % (1 if f.startswith("sub/") else 0)] + rep + fol, follow=(fol[0][3:] if fol else None)))
+    for c in variants:
+        c["variant"] = True
+    sweep = sweep + variants
     for k, c in enumerate(sweep):
         c["id"] = "B%d" % k
     ph("running B (%d tuples)" % len(sweep))
@@ -733,7 +760,7 @@ def main():
     viol = {}
     for c in sweep:
         r = resB.get(c["id"])
-        what = "%s(%s)" % (c["op"], ", ".join(str(a) for a in c["args"]))
+        what = "%s%s(%s)" % (c.get("tag", ""), c["op"], ", ".join(str(a) for a in c["args"]))
         if r is None:
             continue
         if r["crash"]:
@@ -758,10 +785,12 @@ def main():
         elif rp["dirty"]:
             viol.setdefault(internal_key(c["op"]) if rp["internal"] else partial_key(c, rp) or "C10/dirty-fail/%s/E%d" % (c["op"], rp["err"]), []).append(
                 (what, c, "%d failing calls (error %d) changed the observable snapshot" % (rp["dirty"], rp["err"])))
-        fo = parse_op([l for l in r["out"][r["out"].index(next(x for x in r["out"] if x.startswith("REP "))):]]) if c["op"] in FOLLOW else None
+        fname = c.get("follow") if c.get("variant") else FOLLOW.get(c["op"])
+        has_follow = any(x.startswith("op ") for x in c["cmds"][1:]) and fname
+        fo = parse_op([l for l in r["out"][r["out"].index(next(x for x in r["out"] if x.startswith("REP "))):]]) if has_follow else None
         if fo is not None and rp["nf"] == REPS and fo[1] != 0 and not (rp["lmax"] or rp["dirty"]):
             viol.setdefault("C10/future/%s/followup" % c["op"], []).append(
-                (what, c, "all %d calls failed (error %d); the valid follow-up call `%s` on the same handle then fails with error %d" % (REPS, rp["err"], FOLLOW[c["op"]], fo[1])))
+                (what, c, "all %d calls failed (error %d); the valid follow-up call `%s` on the same handle then fails with error %d" % (REPS, rp["err"], fname, fo[1])))
         elif rp.get("fl"):
             viol.setdefault(partial_key(c, rp) or "C10/flush-after-failed/%s/E%d" % (c["op"], rp["err"]), []).append(
                 (what, c, "all %d calls failed (error %d), yet a following gd_metaflush rewrote files of the dirfile: a failed call left a fragment marked modified" % (REPS, rp["err"])))
@@ -773,7 +802,7 @@ def main():
         found_any = True
         chk.violation(key, "%s: %s (%d such argument tuples)" % (what, desc[:900], len(l)),
                       {"kind": "impl-vs-spec", "op": c["op"], "args": c["args"], "count": len(l), "detail": desc,
-                       "how": "printf 'case x RDWR none none none 1\\n%s\\n' | <harness/C10/api built against the asan library> <dir>" % c["cmds"][0],
+                       "how": "printf 'case x RDWR %s %s none 1\\n%s\\n' | <harness/C10/api built against the asan library> <dir>" % (c.get("p0", "none"), c.get("p1", "none"), "\\n".join(c["cmds"])),
                        "others": [w for w, _, _ in l[1:8]]})
 
     ph("B done")
